@@ -432,6 +432,12 @@ impl Check for C11 {
                 cases.push(error_case(tmpl.replace('@', big), "bound or index far outside the sequence"));
             }
         }
+        for p in super::evalorder::SELF_READ_PROGRAMS {
+            let r = crate::refm::eval::run(p, 100_000);
+            if r.is_ok() {
+                cases.push(defined_case(p.to_string(), String::from_utf8_lossy(&r.stdout).to_string(), "an index or bound that reads or writes the sequence it is applied to"));
+            }
+        }
         // indices and bounds are evaluated exactly once, before the right-hand side
         for c in super::evalorder::cases(0) {
             if c.meta.contains("`xs[") || c.meta.contains("`@1[@2") || c.meta.contains("`r = @1[@2") || c.meta.contains("`[xs[") {
